@@ -4,6 +4,7 @@ package c07
 
 import (
 	"bytes"
+	"encoding/binary"
 	"encoding/hex"
 	"fmt"
 	"os"
@@ -50,6 +51,7 @@ type c07 struct {
 	baseSess   int
 	seq        uint32
 	nMut       int64
+	part, parts int // quick: this instance sweeps the bases with index%parts == part (0 parts: all)
 }
 
 func c07Spec(tier, scenario string) seqx.Spec {
@@ -189,6 +191,11 @@ func (c *c07) Apply(e seqx.Event) seqx.StepResult {
 		n := c.sweep(j)
 		j.Tag(fmt.Sprintf("mutants=%d", n))
 		return seqx.StepResult{Obs: "sweep", Viols: j.Viols, Tags: j.Tags}
+	case "Part":
+		// not an event of the UPF: selects which share of the base datagrams a sweep in this state takes, so that
+		// the sweeps of one state run in several worker processes
+		c.part, c.parts = int(e.A[0]), int(e.A[1])
+		return seqx.StepResult{Obs: e.String()}
 	case "Raw":
 		b, _ := hex.DecodeString(e.S)
 		// the datagram embeds loopback addresses of the process that found it (node id, F-SEID, outer header
@@ -198,7 +205,15 @@ func (c *c07) Apply(e seqx.Event) seqx.StepResult {
 			to := []byte{127, byte(c.w.Blk.B), byte(c.w.Blk.C)}
 			b = bytes.ReplaceAll(b, from, to)
 		}
-		c.one(j, mutant{b: b, desc: e.N, hdr: true}, "replayed datagram", nil)
+		// e.N is "datagram[<base>: <mutation>]": the finding's signature is derived from the mutation's class, so
+		// the replay must name it as the sweep did
+		baseName, desc := "replayed datagram", e.N
+		if strings.HasPrefix(desc, "datagram[") && strings.HasSuffix(desc, "]") {
+			if i := strings.Index(desc, ": "); i > 0 {
+				baseName, desc = desc[len("datagram["):i], desc[i+2:len(desc)-1]
+			}
+		}
+		c.one(j, mutant{b: b, desc: desc, hdr: true}, baseName, nil)
 		return seqx.StepResult{Obs: "raw", Viols: j.Viols}
 	default:
 		c.swept = false
@@ -311,13 +326,17 @@ func (c *c07) one(j *sworld.Judge, m mutant, baseName string, baseline *string) 
 	c.seq++
 	var o sworld.StepObs
 	ds := []sworld.Dgram{{Peer: 0, B: raw}, {Peer: 0, B: raw}, {Peer: 2, B: smf.Heartbeat(c.seq)}}
+	if c.tier != "thorough" && strings.HasPrefix(m.desc, "octet ") {
+		// quick: single-octet replacements are sent once (the retransmission path is exercised by every other mutant)
+		ds = ds[1:]
+	}
 	if c.fw != nil {
 		o = c.fw.SendUDPBatch(ds)
 	} else {
 		o = c.w.SendUDPBatch(ds)
 	}
 	if os.Getenv("VERIF_DEBUG") != "" {
-		fmt.Fprintf(os.Stderr, "DEBUG one: fatal=%v alive=%v state=%q out=%v dp=%s\n", o.Fatal, o.Alive, o.State, o.Out, c.dpDump())
+		fmt.Fprintf(os.Stderr, "DEBUG one [%s: %s]: fatal=%v alive=%v state=%q out=%v dp=%s bSess=%#x nodes=%v\n", baseName, m.desc, o.Fatal, o.Alive, o.State, o.Out, c.dpDump(), bSess, c.w.V.NodeIDs())
 	}
 	if o.Fatal || !o.Alive {
 		msg := pfcp.VFatalMsg()
@@ -343,8 +362,8 @@ func (c *c07) one(j *sworld.Judge, m mutant, baseName string, baseline *string) 
 			if pm != nil && pm.HasSEID && pm.SEID == bSess {
 				addressed = true
 			}
-			if pm != nil && pm.NodeID() == c.w.PeerIP(1) {
-				addressed = true
+			if pm != nil && pm.NodeID() == c.w.PeerIP(1) && !(pm.Type >= 50 && pm.Type <= 57) {
+				addressed = true // a node-level message for B's node (see below)
 			}
 		}
 		if len(raw) >= 16 && raw[0]&1 != 0 {
@@ -356,8 +375,11 @@ func (c *c07) one(j *sworld.Judge, m mutant, baseName string, baseline *string) 
 				addressed = true
 			}
 		}
-		if strings.Contains(hex.EncodeToString(raw), hex.EncodeToString(c.w.Blk.IP(3))) {
-			addressed = true // B's node id occurs in the datagram (e.g. a one-bit change of A's)
+		if strings.Contains(hex.EncodeToString(raw), hex.EncodeToString(c.w.Blk.IP(3))) && !(len(raw) > 1 && raw[1] >= 50 && raw[1] <= 57) {
+			// B's node id occurs in a node-level datagram (e.g. a one-bit change of A's in an Association Setup
+			// Request, which legitimately ends B's sessions). A session-level message naming B's node id (an
+			// establishment for B's node, the takeover of A's session onto B's id) does not address B's session.
+			addressed = true
 		}
 		if !addressed && c.w.V.SessDumps()[bSess] != bDump {
 			fail("foreign-session-disturbed:"+site(), "a datagram from A (%s of %s: %s) that does not address B's session %#x changed it: %s -> %s", m.desc, baseName, hexShort(raw), bSess, bDump, c.w.V.SessDumps()[bSess])
@@ -444,11 +466,29 @@ func (c *c07) sweep(j *sworld.Judge) int64 {
 	if c.tier != "thorough" {
 		stride = 1
 	}
+	origA, origB := c.sessUP[0], c.sessUP[1]
+	remapped := 0
+	defer func() {
+		if os.Getenv("VERIF_DEBUG") != "" {
+			fmt.Fprintf(os.Stderr, "DEBUG sweep: %d mutants re-addressed after rebuilds\n", remapped)
+		}
+	}()
 	sigs := map[string]bool{}
 	seenSig := map[string]int{}
 	often := false
 	sinceRebuild := 0
-	for _, b := range bases(c.w.PeerIP(0), c.gnb(), target, txs) {
+	for bi, b := range bases(c.w.PeerIP(0), c.gnb(), target, txs) {
+		if c.parts > 0 && bi%c.parts != c.part {
+			continue
+		}
+		if f := os.Getenv("VERIF_C07_BASE"); f != "" && !strings.Contains(b.name, f) { // debugging aid
+			continue
+		}
+		if c.tier != "thorough" && c.driver == "gtp5g" && strings.Contains(b.name, "update+create+remove") {
+			// quick, real driver: the largest base costs 30-100 ms per mutant through the simulated kernel (about
+			// 4 minutes per state): left to the thorough tier; the model data plane sweeps it in every state
+			continue
+		}
 		muts := structural(b.b, c.seidClasses())
 		if c.tier != "thorough" && strings.Contains(b.name, "update+create+remove") {
 			// quick: the largest base gets the structure-aware mutations only
@@ -476,6 +516,24 @@ func (c *c07) sweep(j *sworld.Judge) int64 {
 		for _, m := range muts {
 			nv := len(j.Viols)
 			sinceRebuild++
+			// the state is rebuilt after a mutant changed it, and the rebuilt sessions may have been given other
+			// SEIDs than the ones the base datagrams were built with: a mutant that addresses A's (B's) session
+			// keeps addressing it
+			if b := m.b; len(b) >= 12 && b[0]&1 != 0 {
+				s := binary.BigEndian.Uint64(b[4:12])
+				to := s
+				if origA != 0 && s == origA && c.sessUP[0] != 0 {
+					to = c.sessUP[0]
+				} else if origB != 0 && s == origB && c.sessUP[1] != 0 {
+					to = c.sessUP[1]
+				}
+				if to != s {
+					nb := append([]byte{}, b...)
+					binary.BigEndian.PutUint64(nb[4:12], to)
+					m.b = nb
+					remapped++
+				}
+			}
 			if c.one(j, m, b.name, &baseline) || sinceRebuild >= 500 {
 				sinceRebuild = 0
 				c.rebuild()
@@ -551,7 +609,16 @@ func RunC07(tier string) {
 			if drv == "gtp5g" {
 				tg = [][]seqx.Event{targets[2], targets[3], targets[5], targets[7]}
 			}
-			stats[i] = seqx.ExploreTargets(run, spec, tier, tg, smp)
+			// every state's sweep is split into five shares of the base datagrams (five jobs)
+			var split [][]seqx.Event
+			for _, h := range tg {
+				for part := int64(0); part < 5; part++ {
+					x := seqx.Ev("Part", part, 5)
+					x.N = fmt.Sprintf("[bases %d mod 5]", part)
+					split = append(split, append(append([]seqx.Event{}, h...), x))
+				}
+			}
+			stats[i] = seqx.ExploreTargets(run, spec, tier, split, smp)
 		}(i, drv)
 		if tier == "thorough" {
 			wg.Wait() // the breadth-first search uses all cores itself
